@@ -165,6 +165,25 @@ example : Prog.WellScoped (([⟨3, some 1, 7⟩, ⟨5, some 1, 2⟩] : List (Rec
 example : DivOK (([⟨3, some 1, 7⟩, ⟨5, some 1, 2⟩] : List (Rec R)).map
     (fun _ => (Instr.var : Instr R)) ++ [.arith .mul 0 1, .real .sin 2]) := Or.inl rfl
 
+/-- **A cloned `WengertList` is an independent copy.**  `clone()` makes a new tape `dst` with the
+    entries of `src` and changes no other tape; a record carried over with
+    `Record::from_existing((number, index), &copy)` has the derivatives it had on the original;
+    afterwards the two tapes evolve separately (an append to one is `World.update` of that one). -/
+theorem tape_clone_same_derivatives (w : World R) (src dst : Nat) (hne : dst ≠ src) (r : Rec R)
+    (hr : r.history = some src) :
+    (w.cloneTape src dst) dst = w src ∧ (∀ t, t ≠ dst → (w.cloneTape src dst) t = w t) ∧
+    (Rec.fromExisting (r.number, r.index) (some dst)).derivatives (w.cloneTape src dst)
+      = r.derivatives w ∧
+    r.derivatives (w.cloneTape src dst) = r.derivatives w := by
+  have h1 : (w.cloneTape src dst) dst = w src := by simp [World.cloneTape]
+  have h2 : (w.cloneTape src dst) src = w src := World.update_other _ _ _ _ (Ne.symm hne)
+  refine ⟨h1, fun t ht => World.update_other _ _ _ _ ht, ?_, ?_⟩
+  · rw [Rec.derivatives_some _ _ dst rfl, Rec.derivatives_some _ _ src hr, h1]
+    rfl
+  · rw [Rec.derivatives_some _ _ src hr, Rec.derivatives_some _ _ src hr, h2]
+
+example : (⟨2, some 0, 5⟩ : Rec R).history = some 0 ∧ (1 : Nat) ≠ 0 := ⟨rfl, by decide⟩
+
 /-- **Every binary operation between variables of two different tapes is rejected with a panic
     and appends nothing.**  For `+ − × ÷`, `pow`, `Record::binary` (as model operators and as
     instructions of a program: the world is returned unchanged), and for `Sum`: as soon as a term
